@@ -7,7 +7,7 @@ From InToto.Proofs Require Import PyLibFacts2.
 
 (** * Loops whose state is an embedded list / set of strings *)
 
-Fixpoint fold_res {S : Type} (step : str -> S -> res S) (l : list str) (st : S) : res S :=
+Fixpoint fold_res {A S : Type} (step : A -> S -> res S) (l : list A) (st : S) : res S :=
   match l with
   | [] => Ok st
   | x :: l' => do st' <- step x st; fold_res step l' st'
@@ -18,6 +18,16 @@ Lemma py_fold_strs : forall {S : Type} (W : S -> pyval) (body : pyval -> pyval -
   forall l st, py_fold (map VStr l) (W st) body = res_map2 W (fold_res step l st).
 Proof.
   intros S W body step H. induction l as [|x l IH]; intro st; [reflexivity|].
+  cbn [map py_fold fold_res]. rewrite H. destruct (step x st) as [st'|e]; [|reflexivity].
+  cbn [res_map2 bind]. apply IH.
+Qed.
+
+Lemma py_fold_map : forall {A S T : Type} (E : A -> pyval) (W : S -> T) (body : pyval -> T -> res T)
+                          (step : A -> S -> res S),
+  (forall x st, body (E x) (W st) = res_map2 W (step x st)) ->
+  forall l st, py_fold (map E l) (W st) body = res_map2 W (fold_res step l st).
+Proof.
+  intros A S T E W body step H. induction l as [|x l IH]; intro st; [reflexivity|].
   cbn [map py_fold fold_res]. rewrite H. destruct (step x st) as [st'|e]; [|reflexivity].
   cbn [res_map2 bind]. apply IH.
 Qed.
